@@ -449,11 +449,33 @@ func (env *verifEnv) coqIdp() string {
 	salg, _ := publicToPreferedJoseSigAlgo(st.Signer.Public())
 	var cls []string
 	for _, c := range st.Config.OpenIDConnectIDP.Client {
-		cls = append(cls, fmt.Sprintf("{| cl_id := %s; cl_secret := %s; cl_allow_aud := %s |}", coqStr(c.ClientID), coqStr(c.ClientSecret), coqBool(c.AllowClientChosenAudiences)))
+		cls = append(cls, fmt.Sprintf("{| cl_id := %s; cl_secret := %s; cl_allow_aud := %s; cl_other := %s |}", coqStr(c.ClientID), coqStr(c.ClientSecret), coqBool(c.AllowClientChosenAudiences), tokClientOther(c)))
 	}
 	return fmt.Sprintf("{| srv := {| s_issuer := %s; s_keys := [%s]; s_signer := %d%%N; s_signer_alg := %d%%N; s_userinfo := %s |};\n     clients := [%s] |}",
 		coqStr(st.idpGetIssuer()), strings.Join(keys, "; "), env.signerKeyID(), tokAlgCode(string(salg)),
 		coqStr(st.idpGetIssuer()+idpOpenIDCUserinfoPath), strings.Join(cls, "; "))
+}
+
+// cl_other of the model's client record: every other bool / string option of the client's
+// configuration entry (fields of OpenIDConnectClientConfig of the CURRENT tree, found by reflection)
+// that is set away from its zero value, as (field name, value) pairs
+func tokClientOther(c OpenIDConnectClientConfig) string {
+	v := reflect.ValueOf(c)
+	var l []string
+	for i := 0; i < v.NumField(); i++ {
+		f := v.Type().Field(i)
+		switch f.Name {
+		case "ClientID", "ClientSecret", "AllowClientChosenAudiences":
+			continue
+		}
+		switch {
+		case f.Type.Kind() == reflect.Bool && v.Field(i).Bool():
+			l = append(l, fmt.Sprintf("(%s, %s)", coqStr(f.Name), coqStr("true")))
+		case f.Type.Kind() == reflect.String && v.Field(i).String() != "":
+			l = append(l, fmt.Sprintf("(%s, %s)", coqStr(f.Name), coqStr(v.Field(i).String())))
+		}
+	}
+	return "[" + strings.Join(l, "; ") + "]"
 }
 
 // ---------------------------------------------------------------- struct tags and database digest
